@@ -240,6 +240,29 @@ def check(ctx):
                "the stored value is None, a nested tree, the mask or a field.to_basic(...) result" if not raw else
                "the in-memory value %s is stored in the tree without being encoded" % ast.unparse(raw[0]), node=st)
 
+    # defaults: virtual output and masking are opt-in
+    for fname in ("to_tree", "dumps"):
+        f = model.method("Config", fname)
+        a = f.node.args
+        pos = [x.arg for x in list(a.posonlyargs) + list(a.args)]
+        dmap = dict(zip(pos[len(pos) - len(a.defaults):], a.defaults))
+        dmap.update({k.arg: d for k, d in zip(a.kwonlyargs, a.kw_defaults) if d is not None})
+        okv = isinstance(dmap.get("virtual"), ast.Constant) and dmap["virtual"].value is False
+        okm = isinstance(dmap.get("sensitive_mask"), ast.Constant) and dmap["sensitive_mask"].value is None
+        ctx.ob("tree.defaults", f, "virtual=False, sensitive_mask=None", okv and okm,
+               "virtual fields and masking are opt-in" if okv and okm else
+               "Config.%s defaults to %s: a plain save contains virtual fields / masked values" % (
+                   fname, "virtual=%s" % ast.unparse(dmap["virtual"]) if not okv and "virtual" in dmap else "a mask"))
+    # the encoder receives (this configuration, the value currently held)
+    for n in g.nodes:
+        if n.kind == "call" and any(e[0] == "CODEC" and e[2] == "to_basic" for e in calls.direct(to_tree, n)):
+            a = n.ast.args
+            ok = len(a) == 2 and isinstance(a[0], ast.Name) and a[0].id == to_tree.self_name and any(
+                k == "expr" and isinstance(pl, ast.Call) and isinstance(pl.func, ast.Attribute) and pl.func.attr == "__getval__"
+                for k, pl in value_sources(to_tree, a[1], n))
+            ctx.ob("tree.encoder-args", to_tree, n.ast, ok, "field.to_basic(self, <value held>)" if ok else
+                   "the encoder is not called with (this configuration, the value held)", node=n)
+
     # ---------------------------------------------------------------- C02.5 glue
     lt = model.method("Config", "load_tree")
     g = an.cfg(lt)
@@ -260,6 +283,12 @@ def check(ctx):
         ctx.ob("load.decode-before-store", lt, svn.ast, bad is None,
                "Field values pass field.to_python before _set_value" if bad is None else
                "a Field value can reach _set_value undecoded: %s" % pth(bad), node=svn)
+        for dn in dec:
+            a = dn.ast.args
+            okd = len(a) == 2 and isinstance(a[0], ast.Name) and a[0].id == lt.self_name and any(
+                k == "iter" and pl[1] == 1 for k, pl in value_sources(lt, a[1], dn))
+            ctx.ob("load.decoder-args", lt, dn.ast, okd, "field.to_python(self, <value from the tree>)" if okd else
+                   "the decoder is not called with (this configuration, the tree's value)", node=dn)
         # the decoded value is what is stored
         if len(svn.ast.args) >= 2:
             srcs = value_sources(lt, svn.ast.args[1], svn)
